@@ -88,7 +88,7 @@ class C09(Prop):
                "aioswitcher.api:SwitcherType2Api._get_breeze_state", "aioswitcher.api:SwitcherType2Api.control_breeze_device",
                "aioswitcher.api:SwitcherApi.stop", "aioswitcher.api:SwitcherType2Api.set_position"]
     min_evaluations = {"quick": 15_000, "thorough": 150_000}
-    budget_s = {"quick": 60, "thorough": 900}
+    budget_s = {"quick": 300, "thorough": 900}
 
     def selftest(self):
         reply_captures()
